@@ -945,6 +945,15 @@ func (bc *BlockChain) reorg(oldBlock, newBlock *types.Block) error {
 		logging.Error("Impossible reorg, please file an issue", "oldnum", oldBlock.Number(), "oldhash", oldBlock.Hash().String(), "newnum", newBlock.Number(), "newhash", newBlock.Hash().String())
 	}
 
+	// drop the lookup entries of every transaction of the abandoned blocks BEFORE the canonical chain is switched
+	// (the loop below writes them again for the new chain): deleted only afterwards, a process killed in between
+	// kept lookups pointing into blocks that are no longer canonical, and nothing ever removed them.
+	staleLookups := bc.db.NewBatch()
+	for _, tx := range deletedTxs {
+		rawdb.DeleteTxLookupEntry(staleLookups, tx.Hash())
+	}
+	staleLookups.Write()
+
 	for i := len(newChain) - 1; i >= 0; i-- {
 		// insert the block in the canonical way, re-writing history
 		bc.insert(newChain[i])
